@@ -444,6 +444,10 @@ def equal(a, b):
             return o.t == c.py
         if isinstance(o, (VInt, VBool, VSlice, VTuple, VList, VNone)):
             return z3.BoolVal(False)
+        if isinstance(o, VU) and o.sort == 'elem' and isinstance(c.py, str):
+            # an opaque element compared with a string literal: the literal is the element constant strconst_<text>
+            # (distinct literals are NOT assumed to be distinct elements: sound, only equalities with the same literal are related)
+            return o.t == z3.Const('strconst_' + c.py, ELEM)
         raise Unsupported(f'== between {a!r} and {b!r}')
     if isinstance(a, VNone) and isinstance(b, VNone):
         return z3.BoolVal(True)
